@@ -92,12 +92,23 @@ def Reader.reset (r : Reader) (src : Src) : Reader :=
 
 def readFuel (c : FState) : Nat := c.total + 8
 
+/-- In Go, an error `Read` returns is `zr.err`, and it is returned only when `zr.toRead` is empty.
+    `Impl.read` has one more exit: it bounds the `for` loop by a fuel and answers `corrupted`,
+    without latching it, when the bound is hit (it is not hit from the states `Impl.init` /
+    `Impl.reset` lead to: `impl_refines_spec`, `reset_refines_spec`; the Go loop has no bound).  The
+    API model latches whatever error was returned, so that "a returned error is latched" holds of
+    every state; on the exits that exist in Go this changes nothing (`latchBound_id`). -/
+def latchBound (c : FState) (e : Option FErr) : FState :=
+  match e with
+  | some x => { c with err := some x, toRead := [] }
+  | none => c
+
 /-- `Read(buf)`, `len(buf) = n`. -/
 def Reader.read (r : Reader) (n : Nat) : Reader × List UInt8 × Option AErr :=
   if r.done then (r, [], some .closed)     -- toRead == nil, zr.err == errClosed
   else
     let (c, out, e) := Impl.read (readFuel r.core) r.core n
-    ({ r with core := c }, out, e.map (liftErr r.tag))
+    ({ r with core := latchBound c e }, out, e.map (liftErr r.tag))
 
 /-- `Close`. -/
 def Reader.close (r : Reader) : Reader × Option AErr :=
@@ -125,5 +136,27 @@ def Reader.run : Reader → List Op → Reader × List Res
     let (r', x) := r.step op
     let (r'', xs) := Reader.run r' ops
     (r'', x :: xs)
+
+/-- Read and Close, no Reset. -/
+def Op.noReset : Op → Bool
+  | .reset _ => false
+  | _ => true
+
+/-- the bytes a call handed to the caller. -/
+def Res.bytes : Res → List UInt8
+  | .read out _ => out
+  | _ => []
+
+/-- drive `Read` with a schedule of buffer lengths (the last entry repeats) until it returns an
+    error: the delivered bytes, that error, the final state (`Impl.runA` / `Impl.runFrom` at the API). -/
+def Reader.drive : Nat → Reader → List Nat → Array UInt8 → Array UInt8 × Option AErr × Reader
+  | 0, r, _, acc => (acc, none, r)
+  | fuel+1, r, sched, acc =>
+    let n := sched.headD 4096
+    let sched' := if sched.length > 1 then sched.tail else sched
+    let (r', out, e) := r.read n
+    match e with
+    | some err => (acc ++ out.toArray, some err, r')
+    | none => Reader.drive fuel r' sched' (acc ++ out.toArray)
 
 end Compress.Flate.Api
